@@ -78,6 +78,11 @@ type vqUniverse struct {
 	fh      []chainhash.Hash
 	byHash  map[chainhash.Hash]int
 
+	// siblings[b][f]: header of block b with only field f changed (0 version,
+	// 1 previous block, 2 merkle root, 3 timestamp, 4 bits, 5 nonce) such
+	// that the proof of work still holds
+	siblings [][6]wire.BlockHeader
+
 	foreign      *wire.MsgBlock // a valid block that is in no store
 	foreignHash  chainhash.Hash
 	foreignBytes []byte
@@ -183,6 +188,36 @@ func vqWitnessRoot(txs []*wire.MsgTx) chainhash.Hash {
 		hs[i] = tx.WitnessHash()
 	}
 	return vqMerkle(hs)
+}
+
+var vqSiblingField = [6]string{"version", "prev-block", "merkle-root", "timestamp", "bits", "nonce"}
+
+// vqSibling returns h with exactly one field changed, trying successive
+// values of that field until the proof of work holds for the new header (the
+// nonce, and every other field, stays as it is).
+func vqSibling(h wire.BlockHeader, field int, powLimit *big.Int) wire.BlockHeader {
+	for i := uint32(1); ; i++ {
+		c := h
+		switch field {
+		case 0:
+			c.Version = h.Version ^ int32(i)
+		case 1:
+			c.PrevBlock[int(i)%32] ^= byte(i>>5) + 1
+		case 2:
+			c.MerkleRoot[int(i)%32] ^= byte(i>>5) + 1
+		case 3:
+			c.Timestamp = h.Timestamp.Add(time.Duration(i) * time.Second)
+		case 4:
+			c.Bits = h.Bits - i
+		case 5:
+			c.Nonce = h.Nonce + i
+		}
+		hash := c.BlockHash()
+		target := blockchain.CompactToBig(c.Bits)
+		if target.Sign() > 0 && target.Cmp(powLimit) <= 0 && blockchain.HashToBig(&hash).Cmp(target) <= 0 {
+			return c
+		}
+	}
 }
 
 var vqCommitPrefix = []byte{0x6a, 0x24, 0xaa, 0x21, 0xa9, 0xed}
@@ -313,6 +348,11 @@ func vqNewUniverse(seed int64, dir string) (*vqUniverse, error) {
 		h := blk.BlockHash()
 		u.hashes = append(u.hashes, h)
 		u.byHash[h] = i
+		var sib [6]wire.BlockHeader
+		for f := range sib {
+			sib[f] = vqSibling(blk.Header, f, u.params.PowLimit)
+		}
+		u.siblings = append(u.siblings, sib)
 		f, err := builder.BuildBasicFilter(blk, u.prevScr[i])
 		if err != nil {
 			return nil, err
@@ -1976,6 +2016,16 @@ func (e *bqEnv) message(k string, b, tgt int) (wire.Message, string) {
 			return m, "other/same-txs-other-header"
 		}
 		return u.blockOf(b, e.nb).Copy(), fmt.Sprintf("other/block-%d", b)
+	case "sibling":
+		// the requested block under a header that differs in one field only
+		m := base()
+		f := v % 6
+		if tgt >= 1 && tgt <= e.nb {
+			m.Header = u.siblings[tgt][f]
+		} else {
+			m.Header = vqSibling(m.Header, f, u.params.PowLimit)
+		}
+		return m, "sibling/" + vqSiblingField[f] + "-only"
 	case "mutated":
 		m := base()
 		switch v % 4 {
